@@ -13,6 +13,8 @@ def main():
     data = json.load(sys.stdin)
     junk = [object() for _ in range(data.get('prealloc', 0))]
     junk2 = {str(i): [i] for i in range(data.get('prealloc', 0) // 7)}
+    for m in data.get('preimport') or []:
+        __import__(m)
     from supp.project import Project
     from supp import assistant, linter
     from supp.nast import extract_scope
